@@ -82,6 +82,7 @@ class Worker(threading.Thread):
         self.sch, self.wid, self.ncalls, self.close_after = sch, wid, ncalls, close_after
         self.first_open_missing = first_open_missing
         self.via_subclass = via_subclass
+        self.garbage_call = None          # index of a call that opens an existing file which is not a NetCDF file
         self.arrived, self.go = threading.Event(), threading.Event()
         self.pending = None
         self.finished = False
@@ -178,6 +179,19 @@ class Worker(threading.Thread):
                         except ValueError as e:
                             self.results.append('ok' if 'does not exist' in str(e) else f'error:ValueError:{e}')
                         continue
+                    if call == self.garbage_call:
+                        # a constructor that passes the guard and then fails while OPENING a file (the file exists but
+                        # is not NetCDF): the thread stays the owner — a failed open must not hand the stores over
+                        try:
+                            self.cls().open(base_file=self.sch.garbage_file())
+                            self.results.append('error:open of a non-NetCDF file succeeded')
+                        except RuntimeError as e:
+                            if 'different threads' in str(e):
+                                raise
+                            self.results.append('ok')
+                        except Exception:  # noqa: BLE001
+                            self.results.append('ok')
+                        continue
                     ts = self.cls().create()
                     self.results.append('ok')
                     if self.close_after:
@@ -204,8 +218,9 @@ class Worker(threading.Thread):
 class Scheduler:
     """Runs real constructor calls in worker threads, one guard statement of one thread at a time."""
 
-    def __init__(self, store_cls, guard, raw_region=None):
+    def __init__(self, store_cls, guard, raw_region=None, tmp=None):
         self.store_cls = store_cls
+        self.tmp = tmp
         self.code = store_cls.__init__.__code__
         self.guard = guard
         self.raw_region = raw_region
@@ -221,6 +236,12 @@ class Scheduler:
         if sub is not None:                       # nothing the code may have recorded on the subclass survives a run
             for k in [k for k in vars(sub) if not k.startswith('__')]:
                 delattr(sub, k)
+
+    def garbage_file(self):
+        p = self.tmp / 'c20_not_netcdf.nc'
+        if not p.exists():
+            p.write_bytes(b'this is not a NetCDF file' * 40)
+        return p
 
     def sub_cls(self):
         if getattr(self, '_sub', None) is None:
@@ -256,7 +277,7 @@ class Scheduler:
             raise SchedulerStuck(f'worker {w.wid} did not come back from step {label}')
         return 'Blocked' if w.blocked else (label or 'Start')
 
-    def run_interleaved(self, calls, close, sched, open_missing=None, via_subclass=None):
+    def run_interleaved(self, calls, close, sched, open_missing=None, via_subclass=None, garbage=None):
         """calls[i] constructor calls in worker i (all workers alive for the whole run), scheduled by `sched`
         (list of worker indices), then drained round robin.  Returns dict(labels, results, owner, owners_seen)."""
         saved = {k: getattr(self.store_cls, k) for k in self.lock_names}
@@ -282,6 +303,9 @@ class Scheduler:
         threading.Lock, threading.RLock = lock_factory, rlock_factory
         workers = [Worker(self, i, n, close[i], bool(open_missing and open_missing[i]),
                           bool(via_subclass and via_subclass[i])) for i, n in enumerate(calls)]
+        for w in workers:
+            if garbage and garbage[w.wid] is not None:
+                w.garbage_call = garbage[w.wid]
         labels, owners = [], []
         try:
             for w in workers:
@@ -293,7 +317,7 @@ class Scheduler:
                 labels.append(self.step(workers[t]))
                 trace.append([t, labels[-1]])
                 owners.append(self.owner_wid(workers))
-            for _ in range(DRAIN_ROUNDS):
+            for _ in range(DRAIN_ROUNDS if self.guard is not None else 40 * DRAIN_ROUNDS):   # raw mode: steps per call unknown
                 if all(w.finished for w in workers):
                     break
                 for w in workers:
@@ -541,6 +565,12 @@ def gen_cases(chk: Check, guard):
         for _ in range(chk.n(12, 200)):
             cases.append({'kind': 'interleave', 'calls': [1, 1], 'close': [True, True], 'via_subclass': via,
                           'sched': [rng.randrange(2) for _ in range(2 * per_call)]})
+    # the owner's constructor fails while opening a file (after the guard): strictly sequential schedules only, so that
+    # the NetCDF library is never entered by two threads at once
+    for calls, garbage in (([2, 1], [1, None]), ([1, 1], [0, None]), ([3, 1], [1, None])):
+        cases.append({'kind': 'interleave', 'calls': calls, 'close': [True, True], 'garbage': garbage,
+                      'sched': [0] * ((per_call + 2) * calls[0] * (1 if guard is not None else 40)) +
+                               [1] * ((per_call + 2) * calls[1])})
     # S: one thread after the other, each exiting before the next starts
     for calls in ([1, 1], [2, 1], [1, 1, 1], [1, 2, 1]):
         for close in (True, False):
@@ -561,7 +591,7 @@ def load_corpus(chk):
 
 def check_cases(chk: Check, cases, guard):
     from AEIC.trajectories import TrajectoryStore
-    sch = Scheduler(TrajectoryStore, guard, None if guard is not None else raw_region())
+    sch = Scheduler(TrajectoryStore, guard, None if guard is not None else raw_region(), chk.tmp)
     if guard is not None and guard.variant == 'locked' and not sch.lock_names:
         chk.broken('scheduler:lock-not-found', 'the source takes a class-level lock but no threading lock is a class '
                                                'attribute of TrajectoryStore')
@@ -574,7 +604,7 @@ def check_cases(chk: Check, cases, guard):
             continue
         try:
             if c['kind'] == 'interleave':
-                outs.append(sch.run_interleaved(c['calls'], c['close'], c['sched'], c.get('open_missing'), c.get('via_subclass')))
+                outs.append(sch.run_interleaved(c['calls'], c['close'], c['sched'], c.get('open_missing'), c.get('via_subclass'), c.get('garbage')))
             elif c['kind'] == 'main_first':
                 outs.append(sch.run_main_first(c['calls'], c['close']))
             else:
@@ -592,7 +622,7 @@ def check_cases(chk: Check, cases, guard):
         if out is None:
             continue
         distinct_threads_step = len({t for t in c['sched'][:4]}) > 1
-        chk.case({k: c.get(k) for k in ('kind', 'calls', 'close', 'sched', 'open_missing', 'via_subclass')},
+        chk.case({k: c.get(k) for k in ('kind', 'calls', 'close', 'sched', 'open_missing', 'via_subclass', 'garbage')},
                  nontrivial=(c['kind'] == 'interleave' and distinct_threads_step) or c['kind'] != 'interleave')
         chk.count('kind:' + c['kind'] + (':exhaustive' if c.get('exhaustive') else ''))
         chk.count(f'threads:{len(c["calls"])}')
